@@ -21,6 +21,8 @@ mutual
     | attr (e : Expr) (a : String)
     | subscr (c i : Expr)
     | call (pushNull : Bool) (f : Expr) (args : Args)   -- PUSH_NULL precedes a plain callee; not a method-style or global one
+    /-- `super(c, o).a` read (3.12+: LOAD_GLOBAL super, c, o, LOAD_SUPER_ATTR with bit 1 set; bit 0 = it is being called as a method) -/
+    | superAttr (meth : Bool) (c o : Expr) (a : String)
   inductive Args
     | nil
     | cons (e : Expr) (rest : Args)
@@ -59,6 +61,8 @@ mutual
     | .attr e a => compileExpr e ++ [{ op := "LOAD_ATTR", argval := a }]
     | .subscr c i => compileExpr c ++ compileExpr i ++ [{ op := "BINARY_SUBSCR" }]
     | .call pn f as => (if pn then [{ op := "PUSH_NULL" }] else []) ++ compileExpr f ++ compileArgs as ++ extPrefix as.length ++ [{ op := "CALL", arg := as.length }]
+    | .superAttr m c o a => [{ op := "LOAD_GLOBAL", argval := "super" }] ++ compileExpr c ++ compileExpr o
+        ++ [{ op := "LOAD_SUPER_ATTR", argval := a, arg := if m then 3 else 2 }]
   def compileArgs : Args → List Insn
     | .nil => []
     | .cons e r => compileExpr e ++ compileArgs r
@@ -71,6 +75,7 @@ mutual
     | .attr e a => renderExpr e ++ "." ++ a
     | .subscr c i => renderExpr c ++ "[" ++ renderExpr i ++ "]"
     | .call _ f as => renderExpr f ++ "(" ++ ", ".intercalate (renderArgs as) ++ ")"
+    | .superAttr _ c o a => "super" ++ "(" ++ renderExpr c ++ ", " ++ renderExpr o ++ ")." ++ a
   def renderArgs : Args → List String
     | .nil => []
     | .cons e r => renderExpr e :: renderArgs r
@@ -149,6 +154,12 @@ theorem nt_pushnull (f : Nat) (rest : List Insn) (st : List String) :
     nextTarget (f + 1) ({ op := "PUSH_NULL" } :: rest) st = nextTarget f rest st := by
   simp [nextTarget, isNameOp, isAttrOp, isSubscrOp, isSliceOp, isCallOp, endsTarget]
 
+theorem nt_super (f : Nat) (m : Bool) (a fn c o : String) (rest : List Insn) (st : List String) :
+    nextTarget (f + 1) ({ op := "LOAD_SUPER_ATTR", argval := a, arg := if m then 3 else 2 } :: rest) (o :: c :: fn :: st)
+      = nextTarget f rest ((fn ++ "(" ++ c ++ ", " ++ o ++ ")." ++ a) :: st) := by
+  cases m <;>
+  simp [nextTarget, isNameOp, isAttrOp, isSubscrOp, isSliceOp, isCallOp, endsTarget, pop, Functor.map, Except.map, bind, Except.bind, pure, Except.pure]
+
 theorem nt_ext (f : Nat) (a : Nat) (rest : List Insn) (st : List String) :
     nextTarget (f + (extPrefix a).length) (extPrefix a ++ rest) st = nextTarget f rest st := by
   unfold extPrefix
@@ -216,6 +227,21 @@ mutual
         rw [hc, hl, nt_expr fn _ _ st, nt_args as _ _ _, nt_ext]
         simp only [renderExpr]
         exact nt_call f as.length (renderArgs as) (renderExpr fn) rest st (renderArgs_length as)
+    | .superAttr m c o a, f, rest, st => by
+      have hc : compileExpr (.superAttr m c o a) ++ rest
+          = { op := "LOAD_GLOBAL", argval := "super" } :: (compileExpr c ++ (compileExpr o ++
+              ({ op := "LOAD_SUPER_ATTR", argval := a, arg := if m then 3 else 2 } :: rest))) := by
+        simp [compileExpr]
+      have hl : (compileExpr (.superAttr m c o a)).length + f
+          = ((compileExpr c).length + ((compileExpr o).length + (f + 1))) + 1 := by
+        simp [compileExpr]; omega
+      rw [hc, hl]
+      have h0 := nt_load ((compileExpr c).length + ((compileExpr o).length + (f + 1))) .global "super"
+        (compileExpr c ++ (compileExpr o ++ ({ op := "LOAD_SUPER_ATTR", argval := a, arg := if m then 3 else 2 } :: rest))) st
+      simp only [loadOp] at h0
+      rw [h0, nt_expr c _ _ _, nt_expr o _ _ _]
+      simp only [renderExpr]
+      exact nt_super f m a "super" (renderExpr c) (renderExpr o) rest st
   theorem nt_args : ∀ (as : Args) (f : Nat) (rest : List Insn) (st : List String),
       nextTarget ((compileArgs as).length + f) (compileArgs as ++ rest) st = nextTarget f rest ((renderArgs as).reverse ++ st)
     | .nil, f, rest, st => by simp [compileArgs, renderArgs]
